@@ -291,9 +291,90 @@ def check_instr_pair(case):
     }
 
 
+# --------------------------------------------------------------------------- #
+# hand-written near-miss blocks offered directly (no inlining): the block differs from an
+# instance of the callee in WHICH BUFFER one of several accesses goes to
+
+
+def direct_cases():
+    from ..gen.templates import _arg
+
+    def callee(body, extra_args=()):
+        return {"name": "kern", "args": [_arg("dst", "window", dims=["4"], written=True), _arg("src", "window", dims=["8"], written=False)] + list(extra_args), "preds": [], "body": body}
+
+    def main(stmt):
+        return {"name": "foo", "args": [_arg("x", "tensor", dims=["8"]), _arg("z", "tensor", dims=["8"]), _arg("y", "tensor", dims=["4"]), _arg("w", "tensor", dims=["4"])], "preds": [], "body": [["assign", "w", ["0"], "1.0"], stmt, ["assign", "w", ["1"], "y[0]"]]}
+
+    loop = lambda body: ["for", "i", "0", "4", body, "seq"]
+    bodies = [
+        # (callee body, [(block, is_instance)...])
+        ([loop([["assign", "dst", ["i"], "src[i] + src[i + 1]"]])], [
+            (loop([["assign", "y", ["i"], "x[i] + x[i + 1]"]]), True),
+            (loop([["assign", "y", ["i"], "x[i] + z[i + 1]"]]), False),
+            (loop([["assign", "y", ["i"], "z[i] + x[i + 1]"]]), False),
+            (loop([["assign", "y", ["i"], "x[i + 2] + x[i + 3]"]]), True),
+        ]),
+        ([loop([["assign", "dst", ["i"], "src[i]"], ["reduce", "dst", ["i"], "src[i + 4]"]])], [
+            (loop([["assign", "y", ["i"], "x[i]"], ["reduce", "y", ["i"], "x[i + 4]"]]), True),
+            (loop([["assign", "y", ["i"], "x[i]"], ["reduce", "w", ["i"], "x[i + 4]"]]), False),
+            (loop([["assign", "y", ["i"], "x[i]"], ["reduce", "y", ["i"], "z[i + 4]"]]), False),
+        ]),
+        ([loop([["assign", "dst", ["i"], "src[i] + dst[i]"]])], [
+            (loop([["assign", "y", ["i"], "x[i] + y[i]"]]), True),
+            (loop([["assign", "y", ["i"], "x[i] + w[i]"]]), False),
+            (loop([["assign", "y", ["i"], "y[i] + y[i]"]]), False),
+        ]),
+        ([loop([["if", "i < 2", [["assign", "dst", ["i"], "src[i]"]], [["assign", "dst", ["i"], "src[i + 1]"]]]])], [
+            (loop([["if", "i < 2", [["assign", "y", ["i"], "x[i]"]], [["assign", "y", ["i"], "x[i + 1]"]]]]), True),
+            (loop([["if", "i < 2", [["assign", "y", ["i"], "x[i]"]], [["assign", "w", ["i"], "x[i + 1]"]]]]), False),
+            (loop([["if", "i < 2", [["assign", "y", ["i"], "x[i]"]], [["assign", "y", ["i"], "z[i + 1]"]]]]), False),
+        ]),
+    ]
+    for cb, blocks in bodies:
+        for blk, inst in blocks:
+            yield {"kind": "direct", "prog": {"prec": "f32", "cfg": False, "callees": [callee(cb)], "main": main(blk)}, "start": 1, "blen": 1, "instance": inst}
+
+
+def check_direct(case):
+    import exo.stdlib.scheduling as S
+    import io, contextlib
+
+    env, p0 = build(case["prog"])
+    f = env["kern"]
+    blk = p0.body()[case["start"] : case["start"] + case["blen"]]
+    label = "direct-instance" if case["instance"] else "direct-near-miss"
+    try:
+        with contextlib.redirect_stdout(io.StringIO()):
+            p2 = S.replace(p0, blk, f, quiet=True)
+    except rejection_types():
+        if CTX is not None:
+            CTX.op("replace:" + label, "rejected")
+        return {"nontrivial": False, "digest": None, "classes": ["unify-failed", label], "sample": None}
+    except (KeyboardInterrupt, SystemExit, MemoryError):
+        raise
+    except BaseException as e:  # noqa
+        if CTX is not None:
+            CTX.op("replace:" + label, "internal")
+        return {"nontrivial": False, "digest": None, "classes": ["unify-internal-error:" + type(e).__name__, label], "sample": None}
+    if CTX is not None:
+        CTX.op("replace:" + label, "accepted")
+    ir0, ir2 = p0.INTERNAL_proc(), p2.INTERNAL_proc()
+    where = f"replace(block {case['start']}, kern) [{label}]\n--- callee:\n{safe_str(f)}\n--- before replace:\n{safe_str(p0)}\n--- after replace:\n{safe_str(p2)}"
+    for fill in (1, 2, 4):
+        fv = {"ctrl": {}, "fill": fill, "layout": 0, "config": {}}
+        o1 = run_outcome(ir0, fv)
+        o2 = run_outcome(ir2, fv)
+        bad = compare_outcomes(o1, o2) or (compare_outcomes(o2, o1) if o2.bufs is not None else None)
+        if bad:
+            raise Violation({"kind": bad[0], "callee": label}, f"{where}\ninput {json.dumps(fv)}: {bad[1]}")
+    return {"nontrivial": True, "digest": {"p": safe_str(p0)}, "classes": ["replaced", label], "sample": {"callee": safe_str(f), "before": safe_str(p0), "after": safe_str(p2), "kind": label}}
+
+
 def check_any(case):
     if case.get("kind") == "instr":
         return check_instr_pair(case)
+    if case.get("kind") == "direct":
+        return check_direct(case)
     return check_case(case)
 
 
@@ -352,4 +433,5 @@ def run(ctx):
                 yield c
 
     run_systematic(ctx, mine(instr_pairs()), guarded(ctx, check_any), keep_one_in=1, label="x86-instr-pairs", presharded=True)
+    run_systematic(ctx, direct_cases(), guarded(ctx, check_any), keep_one_in=1, label="direct-near-miss-blocks")
     run_cases(ctx, case_strategy(), guarded(ctx, check_case), ctx.budget(3000, 24000))
